@@ -1,4 +1,7 @@
+#[cfg(not(prqlc_verif))]
 use std::collections::{HashMap, HashSet};
+#[cfg(prqlc_verif)]
+use prqlc_parser::verif_hash::{HashMap, HashSet};
 use std::fmt;
 use std::ops::Deref;
 
